@@ -15,10 +15,10 @@ PKG=$(grep -o 'pkg/[a-z]*\|internal/[a-z]*' $DIR/README.md | head -1)
 echo "== demo package dir: $PKG"
 cp $DIR/demo${I}_test.go $PKG/zz_demo${I}_test.go
 echo "== demo WITHOUT the change (must pass)"
-go test -vet=off -count=1 -run "${SEED_RUN:-Demo}" ./$PKG/ 2>&1 | tail -3
+CGO_ENABLED=${SEED_CGO:-0} go test ${SEED_FLAGS:-} -vet=off -count=1 -run "${SEED_RUN:-Demo}" ./$PKG/ 2>&1 | tail -3
 git apply $DIR/change$I.diff || { echo "PATCH DOES NOT APPLY"; }
 echo "== demo WITH the change (must fail)"
-go test -vet=off -count=1 -run "${SEED_RUN:-Demo}" ./$PKG/ 2>&1 | tail -5
+CGO_ENABLED=${SEED_CGO:-0} go test ${SEED_FLAGS:-} -vet=off -count=1 -run "${SEED_RUN:-Demo}" ./$PKG/ 2>&1 | tail -5
 rm -f $PKG/zz_demo${I}_test.go
 echo "== existing suite WITH the change (must pass)"
 go build ./... && go test -vet=off -count=1 ./... 2>&1 | grep -v "no test files" | grep -v "^ok" | head -5
